@@ -197,6 +197,176 @@ theorem taper_idem (x : List K) (f : K → K) : taperPts x 0 0 f = none := by
   | nil => rfl
   | cons a l => cases l <;> simp
 
+/-! ### tapering leaves the inside of the table alone -/
+
+/-- inside its range a well-formed table evaluates to the interpolant -/
+theorem eval_inside_eq_interp (t : Table K) (hc : Clipped t) (x : K)
+    (h0 : t.pts.headD 0 ≤ x) (hn : x ≤ t.pts.getLastD 0)
+    (hnn : t.keepNeg = true ∨ 0 ≤ interpAsc t.pts t.vals x) : t.eval x = interpAsc t.pts t.vals x := by
+  unfold Table.eval
+  dsimp only
+  rw [if_neg (not_lt.mpr h0), if_neg (not_lt.mpr hn)]
+  rcases hnn with hk | hk
+  · rw [if_pos hk]
+  · by_cases hk' : t.keepNeg = true
+    · rw [if_pos hk']
+    · rw [if_neg hk', if_neg (not_lt.mpr hk)]
+
+/-- sampled at its own knots a table returns its values -/
+theorem eval_at_knots (t : Table K) (hw : WF t) (hc : Clipped t) : t.pts.map t.eval = t.vals := by
+  have hk := interpAsc_at_knots t.pts t.vals hw.asc hw.len.symm
+  rw [← hk]
+  apply List.map_congr_left
+  intro x hx
+  have hx0 : t.pts.headD 0 ≤ x := by
+    cases hp : t.pts with
+    | nil => rw [hp] at hx; simp at hx
+    | cons p0 ps => simp only [List.headD_cons]; exact strictAsc_head_le_mem p0 ps (hp ▸ hw.asc) x (hp ▸ hx)
+  have hxn : x ≤ t.pts.getLastD 0 := strictAsc_mem_le_last t.pts hw.asc 0 x hx
+  apply eval_inside_eq_interp t hc x hx0 hxn
+  rcases hc with hc | hc
+  · exact Or.inl hc
+  · exact Or.inr (interpAsc_nonneg t.pts t.vals hc hw.asc x hx0)
+
+/-- the constructor on already ascending points and already admissible values stores them as given -/
+theorem mkTable_of_asc (px py : List K) (k : Bool) (hs : StrictAsc px) (hc : k = true ∨ ∀ v ∈ py, 0 ≤ v) :
+    (mkTable px py k).1 = { pts := px, vals := py, keepNeg := k, fillNaN := !endsZero py } := by
+  unfold mkTable
+  simp only [isDesc_false_of_asc px hs, Bool.false_eq_true, if_false, clipNeg_id k py hc]
+
+/-- two tables with the same `keep_neg` whose interpolants agree at a point inside both ranges agree there -/
+theorem eval_eq_of_interp (t t' : Table K) (hk : t'.keepNeg = t.keepNeg) (x : K)
+    (h0 : t.pts.headD 0 ≤ x) (hn : x ≤ t.pts.getLastD 0) (h0' : t'.pts.headD 0 ≤ x) (hn' : x ≤ t'.pts.getLastD 0)
+    (hi : interpAsc t'.pts t'.vals x = interpAsc t.pts t.vals x) : t'.eval x = t.eval x := by
+  unfold Table.eval; dsimp only
+  rw [if_neg (not_lt.mpr h0), if_neg (not_lt.mpr hn), if_neg (not_lt.mpr h0'), if_neg (not_lt.mpr hn'), hi, hk]
+
+/-- `taper()` of a tabulated spectrum on positive wavelengths: inside the original range every value is
+unchanged, the new table is zero-ended (so it extrapolates with zero), and it keeps `keep_neg` -/
+theorem taper_inside_unchanged (t : Table K) (x0 x1 : K) (xs : List K) (hp : t.pts = x0 :: x1 :: xs)
+    (hw : WF t) (hc : Clipped t) (hpos : 0 < x0) (t' : Table K) (ht : t.taper = some t') :
+    (∀ x, x0 ≤ x → x ≤ t.pts.getLastD 0 → t'.eval x = t.eval x) ∧ t'.isTapered = true ∧
+      t'.keepNeg = t.keepNeg := by
+  have hasc : StrictAsc (x0 :: x1 :: xs) := hp ▸ hw.asc
+  have h01 : x0 < x1 := hasc.1
+  obtain ⟨hlt, hge⟩ := dropLast_last_lt x0 x1 xs hasc
+  have hout := taper_points_outside x0 x1 _ _ hpos h01 (lt_of_lt_of_le hpos hge) hlt
+  have hknots : (x0 :: x1 :: xs).map t.eval = t.vals := hp ▸ eval_at_knots t hw hc
+  have hlen : (x0 :: x1 :: xs).length = t.vals.length := by rw [← hp]; exact hw.len.symm
+  have hspec := taper_spec x0 x1 xs (t.vals.headD 0) (t.vals.getLastD 0) t.eval
+  dsimp only at hspec
+  unfold Table.taper at ht
+  rw [hp, hspec, hknots] at ht
+  obtain ⟨y0, y1, ys, hv⟩ : ∃ y0 y1 ys, t.vals = y0 :: y1 :: ys := by
+    match hvv : t.vals, hlen with
+    | y0 :: y1 :: ys, _ => exact ⟨y0, y1, ys, rfl⟩
+    | [_], h => simp at h
+    | [], h => simp at h
+  have hlys : xs.length = ys.length := by rw [hv] at hlen; simpa using hlen
+  have hzero : t.keepNeg = true ∨ ∀ v ∈ t.vals, 0 ≤ v := hc
+  have hL : t.pts.getLastD 0 = (x0 :: x1 :: xs).getLastD x0 := by rw [hp]; simp only [List.getLastD_cons]
+  set w1 := x0 ^ 2 / x1 with hw1
+  set w2 := (x0 :: x1 :: xs).getLastD x0 ^ 2 / (x0 :: x1 :: xs).dropLast.getLastD x0 with hw2
+  have hlastlt : ∀ y ∈ (x0 :: x1 :: xs).getLast?, y < w2 := by
+    intro y hy
+    have : (x0 :: x1 :: xs).getLastD x0 = y := by rw [List.getLastD_eq_getLast?, hy]; rfl
+    rw [← this]; exact hout.2
+  have hascA : StrictAsc ((x0 :: x1 :: xs) ++ [w2]) := strictAsc_append_one _ _ hasc hlastlt
+  have hascP : StrictAsc (w1 :: x0 :: x1 :: xs) := strictAsc_cons_one _ _ hasc (by simp; exact hout.1)
+  have hascPA : StrictAsc (w1 :: ((x0 :: x1 :: xs) ++ [w2])) :=
+    strictAsc_cons_one _ _ hascA (by simp; exact hout.1)
+  have hnnA : t.keepNeg = true ∨ ∀ v ∈ t.vals ++ [0], 0 ≤ v := by
+    rcases hzero with h | h
+    · exact Or.inl h
+    · right; intro v hv'; rcases List.mem_append.mp hv' with h' | h'
+      · exact h v h'
+      · simp at h'; rw [h']
+  have hnnP : t.keepNeg = true ∨ ∀ v ∈ (0 : K) :: t.vals, 0 ≤ v := by
+    rcases hzero with h | h
+    · exact Or.inl h
+    · right; intro v hv'; rcases List.mem_cons.mp hv' with h' | h'
+      · rw [h']
+      · exact h v h'
+  have hnnPA : t.keepNeg = true ∨ ∀ v ∈ (0 : K) :: (t.vals ++ [0]), 0 ≤ v := by
+    rcases hnnA with h | h
+    · exact Or.inl h
+    · right; intro v hv'; rcases List.mem_cons.mp hv' with h' | h'
+      · rw [h']
+      · exact h v h'
+  -- interpolants agree on the original range
+  have hiA : ∀ x, x ≤ (x0 :: x1 :: xs).getLastD x0 →
+      interpAsc ((x0 :: x1 :: xs) ++ [w2]) (t.vals ++ [0]) x = interpAsc (x0 :: x1 :: xs) t.vals x := by
+    intro x hx
+    apply interpAsc_append w2 0 (x0 :: x1 :: xs) t.vals hlen (by simp) x
+    simpa only [List.getLastD_cons] using hx
+  have hiP : ∀ x, x0 ≤ x →
+      interpAsc (w1 :: x0 :: x1 :: xs) (0 :: t.vals) x = interpAsc (x0 :: x1 :: xs) t.vals x := by
+    intro x hx
+    rw [hv]; exact interpAsc_prepend w1 0 x0 x1 y0 y1 xs ys hout.1 h01 x hx
+  have hiPA : ∀ x, x0 ≤ x → x ≤ (x0 :: x1 :: xs).getLastD x0 →
+      interpAsc (w1 :: ((x0 :: x1 :: xs) ++ [w2])) (0 :: (t.vals ++ [0])) x = interpAsc (x0 :: x1 :: xs) t.vals x := by
+    intro x hx hxn
+    rw [← hiA x hxn, hv]
+    exact interpAsc_prepend w1 0 x0 x1 y0 y1 (xs ++ [w2]) (ys ++ [0]) hout.1 h01 x hx
+  by_cases h1 : t.vals.headD 0 = 0 <;> by_cases h2 : t.vals.getLastD 0 = 0
+  · rw [if_pos ⟨h1, h2⟩] at ht; simp at ht
+  · simp only [h1, h2, and_false, if_false, ne_eq, not_true_eq_false, not_false_eq_true, if_true,
+      List.nil_append, Option.some.injEq] at ht
+    rw [mkTable_of_asc _ _ _ hascA hnnA] at ht
+    subst ht
+    refine ⟨?_, ?_, rfl⟩
+    · intro x hx0 hxn
+      rw [hL] at hxn
+      refine eval_eq_of_interp t _ ?_ x (by rw [hp]; simpa using hx0) (by rw [hL]; exact hxn) ?_ ?_ ?_
+      · rfl
+      · simpa using hx0
+      · simp only [List.getLastD_concat]; exact le_of_lt (lt_of_le_of_lt hxn hout.2)
+      · simp only []; rw [hp]; exact hiA x hxn
+    · have hl : (t.vals ++ [(0 : K)]).getLast? = some 0 := by simp
+      have hh : (t.vals ++ [(0 : K)]).head? = some y0 := by rw [hv]; rfl
+      have h1' : y0 = 0 := by rw [hv] at h1; simpa using h1
+      simp only [Table.isTapered, endsZero, hl, hh, h1']; simp
+  · simp only [h1, h2, false_and, if_false, ne_eq, not_true_eq_false, not_false_eq_true, if_true,
+      List.append_nil, List.singleton_append, Option.some.injEq] at ht
+    rw [mkTable_of_asc _ _ _ hascP hnnP] at ht
+    subst ht
+    refine ⟨?_, ?_, rfl⟩
+    · intro x hx0 hxn
+      refine eval_eq_of_interp t _ ?_ x (by rw [hp]; simpa using hx0) hxn ?_ ?_ ?_
+      · rfl
+      · simp only [List.headD_cons]; exact le_trans (le_of_lt hout.1) hx0
+      · rw [hL] at hxn; simpa only [List.getLastD_cons] using hxn
+      · simp only []; rw [hp]; exact hiP x hx0
+    · simp only [Table.isTapered, endsZero]
+      have : (0 :: t.vals).getLast? = some (t.vals.getLastD 0) := by
+        rw [hv, List.getLast?_cons_cons, List.getLastD_eq_getLast?,
+          List.getLast?_eq_getLast_of_ne_nil (by simp)]; rfl
+      simp only [Table.isTapered, endsZero, List.head?_cons, this, h2]; simp
+  · simp only [h1, h2, false_and, and_false, if_false, ne_eq, not_true_eq_false, not_false_eq_true, if_true,
+      List.singleton_append, Option.some.injEq] at ht
+    replace ht : (mkTable (w1 :: ((x0 :: x1 :: xs) ++ [w2])) (0 :: (t.vals ++ [0])) t.keepNeg).1 = t' := ht
+    rw [mkTable_of_asc _ _ _ hascPA hnnPA] at ht
+    subst ht
+    refine ⟨?_, ?_, rfl⟩
+    · intro x hx0 hxn
+      rw [hL] at hxn
+      refine eval_eq_of_interp t _ ?_ x (by rw [hp]; simpa using hx0) (by rw [hL]; exact hxn) ?_ ?_ ?_
+      · rfl
+      · simp only [List.headD_cons]; exact le_trans (le_of_lt hout.1) hx0
+      · have : (w1 :: ((x0 :: x1 :: xs) ++ [w2])).getLastD 0 = w2 := by
+          rw [List.getLastD_cons, List.getLastD_concat]
+        simp only []; rw [this]; exact le_of_lt (lt_of_le_of_lt hxn hout.2)
+      · simp only []; rw [hp]; exact hiPA x hx0 hxn
+    · have hl : ((0 : K) :: (t.vals ++ [(0 : K)])).getLast? = some 0 := by
+        have : (0 : K) :: (t.vals ++ [(0 : K)]) = ((0 : K) :: t.vals) ++ [0] := rfl
+        rw [this, List.getLast?_concat]
+      simp only [Table.isTapered, endsZero, List.head?_cons, hl]; simp
+
+/-- non-vacuity of `taper_inside_unchanged`: a concrete table with two non-zero ends is tapered to a table
+with one more point on each side -/
+example : (Table.taper (mkTable ([2, 4, 8] : List ℚ) [5, 1, 4] false).1).map (·.pts) = some [1, 2, 4, 8, 16] := by
+  decide +kernel
+
 /-- non-vacuity: a concrete descending table with a negative entry -/
 example : (mkTable ([3, 2, 1] : List ℚ) [5, -1, 4] false).1.pts = [1, 2, 3] ∧
     (mkTable ([3, 2, 1] : List ℚ) [5, -1, 4] false).1.vals = [4, 0, 5] ∧
